@@ -157,3 +157,50 @@ func verifK18MixModel() *openfgav1.AuthorizationModel {
 		},
 	}
 }
+
+// Model "k18self" (hand-written): a relation that allows a userset of ITSELF, without and with a condition
+// (the only shape in which `object#relation@object#relation` passes model validation, so that the
+// self-reference rule of the write command is what rejects it), and conditions whose single parameter has
+// each of the primitive parameter types (for the typed-context checks, VerifK18nNullContext).
+//
+//	type user
+//	type group
+//	  relations
+//	    define member: [user, group#member, group#member with c1]
+//	    define owner: [user with ca, user with cb, user with cs, user with c1]
+//	condition c1(x1: int) / ca(xa: any) / cb(xb: bool) / cs(xs: string)
+func verifK18SelfModel() *openfgav1.AuthorizationModel {
+	this := func() *openfgav1.Userset { return &openfgav1.Userset{Userset: &openfgav1.Userset_This{}} }
+	userWith := func(c string) *openfgav1.RelationReference {
+		return &openfgav1.RelationReference{Type: "user", Condition: c}
+	}
+	member := func(c string) *openfgav1.RelationReference {
+		return &openfgav1.RelationReference{Type: "group", RelationOrWildcard: &openfgav1.RelationReference_Relation{Relation: "member"}, Condition: c}
+	}
+	cond := func(name, expr, param string, tn openfgav1.ConditionParamTypeRef_TypeName) *openfgav1.Condition {
+		return &openfgav1.Condition{Name: name, Expression: expr, Parameters: map[string]*openfgav1.ConditionParamTypeRef{
+			param: {TypeName: tn, GenericTypes: []*openfgav1.ConditionParamTypeRef{}},
+		}}
+	}
+	return &openfgav1.AuthorizationModel{
+		Id:            "01HVMMBCMGZNT3SED4Z17ECXCA",
+		SchemaVersion: "1.1",
+		TypeDefinitions: []*openfgav1.TypeDefinition{
+			{Type: "user", Relations: map[string]*openfgav1.Userset{}},
+			{
+				Type:      "group",
+				Relations: map[string]*openfgav1.Userset{"member": this(), "owner": this()},
+				Metadata: &openfgav1.Metadata{Relations: map[string]*openfgav1.RelationMetadata{
+					"member": {DirectlyRelatedUserTypes: []*openfgav1.RelationReference{userWith(""), member(""), member("c1")}},
+					"owner":  {DirectlyRelatedUserTypes: []*openfgav1.RelationReference{userWith("ca"), userWith("cb"), userWith("cs"), userWith("c1")}},
+				}},
+			},
+		},
+		Conditions: map[string]*openfgav1.Condition{
+			"c1": cond("c1", "x1 < 100", "x1", openfgav1.ConditionParamTypeRef_TYPE_NAME_INT),
+			"ca": cond("ca", "xa == 1", "xa", openfgav1.ConditionParamTypeRef_TYPE_NAME_ANY),
+			"cb": cond("cb", "xb", "xb", openfgav1.ConditionParamTypeRef_TYPE_NAME_BOOL),
+			"cs": cond("cs", "xs == 'a'", "xs", openfgav1.ConditionParamTypeRef_TYPE_NAME_STRING),
+		},
+	}
+}
